@@ -30,7 +30,8 @@ def run(ctx: Ctx):
                                 "cached": "R-C11-2", "shared-decoding": "R-C11-2"}, "SoftAlignment")
     nbk.check_build_A(ctx, {"A-shape": "R-C11-2", "A-offset": "R-C11-2", "A-cell": "R-C11-2", "A-null": "R-C11-2"})
     nbk.check_candidates(ctx, {"source": "R-C11-4", "sizes-with-null": "R-C11-4", "threshold": "R-C11-4", "filter-op": "R-C11-4", "filter-extra": "R-C11-4",
-                               "final-slice": "R-C11-4", "c2n": "R-C11-4"})
+                               "final-slice": "R-C11-4", "c2n": "R-C11-4", "cost-domain": "R-C11-4", "cost-term": "R-C11-4", "cost-closed": "R-C11-4",
+                               "final-normalise": "R-C11-4", "matrix-domain": "R-C11-4", "matrix-alloc": "R-C11-4", "matrix-cover": "R-C11-4", "append": "R-C11-4"})
     # R-C11-3 statement-level sibling comparison
     fs, fb = ctx.fn(SOFT, "R-C11-3"), ctx.fn(BEST, "R-C11-3")
 
